@@ -242,9 +242,9 @@ pub fn cfg_strategy(p: &Profile) -> BoxedStrategy<Cfg> {
         pct(50),
         pct(15),
         pct(50),
-        pct(40),
+        (pct(40), pct(30), 1u8..=2),
     )
-        .prop_map(move |((pool, objects, gates, streams), q, unlock_points, (sp, spv), (po, pov), root_holds, double_wake, gate_keep_all, stream_always_register, unwinding_drops, consumer_probe_polls, chained_streams)| Cfg {
+        .prop_map(move |((pool, objects, gates, streams), q, unlock_points, (sp, spv), (po, pov), root_holds, double_wake, gate_keep_all, stream_always_register, unwinding_drops, consumer_probe_polls, (chained_streams, ssw, sswn))| Cfg {
             pool,
             objects,
             gates,
@@ -262,6 +262,7 @@ pub fn cfg_strategy(p: &Profile) -> BoxedStrategy<Cfg> {
             unwinding_drops,
             consumer_probe_polls,
             chained_streams,
+            stream_self_wakes: if ssw { sswn } else { 0 },
         })
         .boxed()
 }
